@@ -845,6 +845,66 @@ def _from_residual(it, S, t, callee, args):
 PREFIX_MODELS.append((lambda name, c: name.endswith("::from_residual"), _from_residual))
 
 
+_TO_BYTES = re.compile(r"^core::num::<impl (u8|u16|u32|u64|u128|usize|i8|i16|i32|i64)>::to_(be|le|ne)_bytes$")
+
+
+def _to_bytes(it, S, t, callee, args):
+    # the N bytes of the integer in the given byte order (std documentation)
+    m = _TO_BYTES.match(norm_name(callee.get("pretty")))
+    ty, order = m.group(1), m.group(2)
+    n = {"u8": 1, "i8": 1, "u16": 2, "i16": 2, "u32": 4, "i32": 4, "u64": 8, "i64": 8, "usize": 8, "u128": 16}[ty]
+    c = const_val(args[0])
+    if isinstance(c, int) and not isinstance(c, bool) and order in ("be", "le"):
+        bs = [(c >> (8 * i)) & 0xFF for i in range(n)]
+        if order == "be":
+            bs.reverse()
+        return ("agg", "array", 0, tuple(K("u8", b) for b in bs))
+    R = ("model", "int-bytes", order, ty, args[0])
+    set_ty(R, tykey(Place(t["dest"]).ty))
+    return ("upd", R, (((("len",),), U(n)),))
+
+
+PREFIX_MODELS.append((lambda name, c: _TO_BYTES.match(name) is not None, _to_bytes))
+
+
+@model("core::f64::<impl f64>::to_bits", "core::f32::<impl f32>::to_bits")
+def m_to_bits(it, S, t, callee, args):
+    R = ("model", "float-bits", args[0])
+    set_ty(R, tykey(Place(t["dest"]).ty))
+    return R
+
+
+_TRY_FROM = re.compile(r"^core::convert::num::(?:ptr_try_from_impls::)?<impl core::convert::TryFrom<(u8|u16|u32|u64|usize|i8|i16|i32|i64|isize)> for (u8|u16|u32|u64|usize|i8|i16|i32|i64|isize)>::try_from$")
+
+
+def _try_from(it, S, t, callee, args):
+    # Ok(the same number) iff it fits the target type, else Err (std documentation): a lossless conversion by construction
+    m = _TRY_FROM.match(norm_name(callee.get("pretty")))
+    src, to = m.group(1), m.group(2)
+    v = args[0]
+    if sv_type(v) is None and not is_const(v):
+        set_ty(v, src)
+    r = ty_range(to)
+    R = ("call", it.site(), callee.get("path"))
+    set_ty(R, tykey(Place(t["dest"]).ty))
+    d = ("discr", R)
+    lo, hi = K(src, r[0]), K(src, r[1])
+    it.cond[(d, 0)] = [("le", v, hi, 0), ("le", lo, v, 0)]
+    dv = S.dom(v)
+    if dv.lo >= r[0] and dv.hi <= r[1]:
+        S.set_dom(d, Dom(0, 0))
+    elif dv.lo > r[1] or dv.hi < r[0]:
+        S.set_dom(d, Dom(1, 1))
+    elif dv.lo >= r[0]:
+        it.cond[(d, 1)] = [("le", hi, v, -1)]
+    payload = ("cast", to, v)
+    set_ty(payload, to)
+    return ("upd", R, (((("dc", 0, "Ok"), ("f", 0, "0")), payload),))
+
+
+PREFIX_MODELS.append((lambda name, c: _TRY_FROM.match(name) is not None, _try_from))
+
+
 _NUM_FROM = re.compile(r"^core::convert::num::<impl core::convert::From<(u8|u16|u32|u64|i8|i16|i32|i64|bool|usize|isize)> for (u8|u16|u32|u64|u128|i8|i16|i32|i64|i128|usize|isize|f32|f64)>::from$")
 
 
